@@ -213,22 +213,22 @@ Proof.
   destruct (IH eq_refl) as [d' [Hin Hn]]. exists d'. split; [now right | assumption].
 Qed.
 
-Definition tho_result (recs w : list (dep * wval)) (d : dep) (e e' : dentry) : Prop :=
-  if changed e then exists wv, getN w d = Some wv /\ e' = tho_compare (getN recs d) wv else e' = DSkipped.
+Definition tho_result (gl : list dep) (recs w : list (dep * wval)) (d : dep) (e e' : dentry) : Prop :=
+  if changed e then exists wv, getN w d = Some wv /\ e' = tho_compare (memN d gl) (getN recs d) wv else e' = DSkipped.
 
-Lemma tho_entries_spec recs w es ents :
-  tho_entries recs w es = Some ents ->
+Lemma tho_entries_spec gl recs w es ents :
+  tho_entries gl recs w es = Some ents ->
   map fst ents = map fst es /\
-  (forall d e', In (d, e') ents -> exists e, In (d, e) es /\ tho_result recs w d e e') /\
-  (forall d e, In (d, e) es -> exists e', In (d, e') ents /\ tho_result recs w d e e').
+  (forall d e', In (d, e') ents -> exists e, In (d, e) es /\ tho_result gl recs w d e e') /\
+  (forall d e, In (d, e) es -> exists e', In (d, e') ents /\ tho_result gl recs w d e e').
 Proof.
   revert ents. induction es as [|[d e] es IH]; cbn [tho_entries]; intros ents H.
   - injection H as <-. split; [reflexivity|]. split; intros ? ? [].
-  - destruct (if changed e then match getN w d with None => None | Some wv => Some (tho_compare (getN recs d) wv) end
+  - destruct (if changed e then match getN w d with None => None | Some wv => Some (tho_compare (memN d gl) (getN recs d) wv) end
               else Some DSkipped) as [e1|] eqn:He; [|discriminate].
-    destruct (tho_entries recs w es) as [l|] eqn:Hl; [|discriminate].
+    destruct (tho_entries gl recs w es) as [l|] eqn:Hl; [|discriminate].
     injection H as <-. destruct (IH l eq_refl) as [Hk [Hb Hf]].
-    assert (Hr : tho_result recs w d e e1).
+    assert (Hr : tho_result gl recs w d e e1).
     { unfold tho_result. destruct (changed e).
       - destruct (getN w d) as [wv|]; [|discriminate]. injection He as <-. eauto.
       - now injection He as <-. }
@@ -354,7 +354,7 @@ Variables (v : variant) (cfg : config) (recs world : list (dep * wval)) (i : ste
 Hypothesis Hown : v_own_only v = true.
 Hypothesis Hc : nth_error cfg i = Some c.
 Hypothesis Hna : rc_always (rcond c) = false.
-Hypothesis Hsame : forall d, In d (s_deps c) -> tho_same recs world d = true.
+Hypothesis Hsame : forall d, In d (s_deps c) -> tho_same (msens v cfg) recs world d = true.
 Hypothesis Heff : forall k ck d, nth_error cfg k = Some ck -> In d (s_deps c) -> In d (map fst (s_effs ck)) -> In k (s_edges c).
 
 Definition upstream_ran (σ : rstate) : Prop := exists j, In j (s_edges c) /\ In j (r_exec σ).
@@ -367,16 +367,16 @@ Proof. intros [j [H1 H2]]. exists j. split; [assumption | now apply event_exec_m
 
 Lemma tho_own_unchanged σ ents :
   (forall d, In d (s_deps c) -> getN (r_world σ) d = getN world d) ->
-  tho_entries recs (r_world σ) (filter (fun de => memN (fst de) (s_deps c)) (r_diffs σ)) = Some ents ->
+  tho_entries (msens v cfg) recs (r_world σ) (filter (fun de => memN (fst de) (s_deps c)) (r_diffs σ)) = Some ents ->
   existsb (fun e => changed (snd e)) ents = false.
 Proof.
   intros Hw Ht. apply existsb_changed_false. intros d e' Hin.
-  destruct (tho_entries_spec _ _ _ _ Ht) as [_ [Hb _]]. destruct (Hb _ _ Hin) as [e [He Hr]].
+  destruct (tho_entries_spec _ _ _ _ _ Ht) as [_ [Hb _]]. destruct (Hb _ _ Hin) as [e [He Hr]].
   apply filter_In in He. destruct He as [_ Hm]. cbn [fst] in Hm. apply memN_In in Hm.
   unfold tho_result in Hr. destruct (changed e); [|now subst].
   destruct Hr as [wv [Hwv ->]]. rewrite (Hw _ Hm) in Hwv. specialize (Hsame _ Hm).
-  unfold tho_same in Hsame. rewrite Hwv in Hsame. destruct (getN recs d) as [[rs rt]|]; [|discriminate].
-  destruct wv as [ws wt]. cbn [tho_compare snd]. rewrite Hsame. reflexivity.
+  unfold tho_same in Hsame. rewrite Hwv in Hsame. destruct (getN recs d) as [rv|]; [|discriminate].
+  cbn [tho_compare]. rewrite Hsame. reflexivity.
 Qed.
 
 Lemma unrel_inv_event σ k : unrel_inv σ -> unrel_inv (event v cfg recs σ k).
@@ -449,9 +449,9 @@ Definition targets_of (v : variant) (c : stepcfg) (σ : rstate) : list (dep * de
 Lemma targets_sub v c σ x : In x (targets_of v c σ) -> In x (r_diffs σ).
 Proof. unfold targets_of. destruct (v_own_only v); [intros H; apply filter_In in H; tauto | auto]. Qed.
 
-Lemma tho_phase_eq v recs c i σ :
-  tho_phase v recs c i σ =
-  match tho_entries recs (r_world σ) (targets_of v c σ) with
+Lemma tho_phase_eq v cfg recs c i σ :
+  tho_phase v (msens v cfg) recs c i σ =
+  match tho_entries (msens v cfg) recs (r_world σ) (targets_of v c σ) with
   | None => set_state σ i LPanic
   | Some ents =>
       let σ' := set_diffs σ (updN_all (r_diffs σ) ents) in
@@ -466,7 +466,7 @@ Lemma event_diffs v cfg recs σ k :
                    sup_entries recs (r_world σ) (s_deps ck) = Some ents /\
                    r_diffs (event v cfg recs σ k) = updN_all (r_diffs σ) ents) \/
   (exists ck ents, nth_error cfg k = Some ck /\ getL (r_lst σ) k = LSupChanged /\
-                   tho_entries recs (r_world σ) (targets_of v ck σ) = Some ents /\
+                   tho_entries (msens v cfg) recs (r_world σ) (targets_of v ck σ) = Some ents /\
                    r_diffs (event v cfg recs σ k) = updN_all (r_diffs σ) ents).
 Proof.
   unfold event. destruct (nth_error cfg k) as [ck|] eqn:Hc; [|left; reflexivity].
@@ -479,7 +479,7 @@ Proof.
     destruct (sup_entries recs (r_world σ) (s_deps ck)) as [ents|] eqn:He; [|left; reflexivity].
     right; left. exists ck, ents. repeat split; try assumption. break_match; reflexivity.
   - rewrite tho_phase_eq.
-    destruct (tho_entries recs (r_world σ) (targets_of v ck σ)) as [ents|] eqn:He; [|left; reflexivity].
+    destruct (tho_entries (msens v cfg) recs (r_world σ) (targets_of v ck σ)) as [ents|] eqn:He; [|left; reflexivity].
     cbn zeta. unfold decide_not_changed, do_run, set_state, set_diffs.
     right; right. exists ck, ents. repeat split; try assumption. break_match; reflexivity.
 Qed.
@@ -504,7 +504,7 @@ Hypothesis Hd : In d (s_deps c).
 Hypothesis Hn : rc_never (rcond c) = false.
 Hypothesis Hw : getN world d = Some w.
 Hypothesis Hsup : changed (sup_compare (getN recs d) w) = true.
-Hypothesis Htho : changed (tho_compare (getN recs d) w) = true.
+Hypothesis Htho : changed (tho_compare (memN d (msens v cfg)) (getN recs d) w) = true.
 Hypothesis Hnoeff : forall k ck, nth_error cfg k = Some ck -> ~ In d (map fst (s_effs ck)).
 
 Definition acted_state (σ : rstate) : Prop :=
@@ -536,7 +536,7 @@ Proof.
     exists e'. split; [reflexivity|]. destruct (sup_entries_spec _ _ _ _ Hs) as [_ Hspec].
     destruct (Hspec _ _ Hin) as [wv [Hwv ->]]. rewrite Hwd in Hwv. injection Hwv as <-. exact Hsup.
   - destruct (getN_updN_all_cases ents (r_diffs σ) d) as [[_ ->] | [e' [Hin ->]]]; [eauto|].
-    exists e'. split; [reflexivity|]. destruct (tho_entries_spec _ _ _ _ Ht) as [_ [Hb _]].
+    exists e'. split; [reflexivity|]. destruct (tho_entries_spec _ _ _ _ _ Ht) as [_ [Hb _]].
     destruct (Hb _ _ Hin) as [e0 [H0 Hr]]. apply targets_sub in H0.
     rewrite (In_getN_nodup _ _ _ Hnd H0) in He. injection He as ->.
     unfold tho_result in Hr. rewrite Hce in Hr. destruct Hr as [wv [Hwv ->]].
@@ -569,9 +569,9 @@ Proof.
   - (* phase 2 *)
     destruct Hst as [e [He Hce]].
     unfold event. rewrite Hc, Hs. rewrite tho_phase_eq.
-    destruct (tho_entries recs (r_world σ) (targets_of v c σ)) as [ents|] eqn:Ht;
+    destruct (tho_entries (msens v cfg) recs (r_world σ) (targets_of v c σ)) as [ents|] eqn:Ht;
       [|cbn [set_state r_lst getL]; now rewrite Nat.eqb_refl].
-    destruct (tho_entries_spec _ _ _ _ Ht) as [_ [_ Hf]].
+    destruct (tho_entries_spec _ _ _ _ _ Ht) as [_ [_ Hf]].
     assert (Hint : In (d, e) (targets_of v c σ)).
     { unfold targets_of. destruct (v_own_only v); [|now apply getN_In].
       apply filter_In. split; [now apply getN_In | cbn [fst]; now apply memN_In]. }
@@ -646,7 +646,7 @@ Proof.
     destruct (existsb _ ents); [cbn [set_state set_diffs r_lst getL]; now rewrite Nat.eqb_refl|].
     unfold do_run. cbn [r_lst r_exec getL]. rewrite Nat.eqb_refl. destruct (s_ok c); now left.
   - unfold event. rewrite Hc, Hs. rewrite tho_phase_eq.
-    destruct (tho_entries recs (r_world σ) (targets_of v c σ)) as [ents|];
+    destruct (tho_entries (msens v cfg) recs (r_world σ) (targets_of v c σ)) as [ents|];
       [|cbn [set_state r_lst getL]; now rewrite Nat.eqb_refl].
     cbn zeta. unfold decide_not_changed. rewrite Ha.
     destruct (existsb _ ents); unfold do_run; cbn [r_lst r_exec getL]; rewrite Nat.eqb_refl; destruct (s_ok c); now left.
@@ -720,7 +720,7 @@ Proof.
     + cbn [set_diffs r_lst]. rewrite Hx. cbn [andb].
       destruct (rc_always (rcond c)); unfold do_run; cbn [r_lst r_exec getL]; rewrite Nat.eqb_refl; destruct (s_ok c); now left.
   - unfold event. rewrite Hc, Hs. rewrite tho_phase_eq.
-    destruct (tho_entries recs (r_world σ) (targets_of v c σ)) as [ents|];
+    destruct (tho_entries (msens v cfg) recs (r_world σ) (targets_of v c σ)) as [ents|];
       [|cbn [set_state r_lst getL]; now rewrite Nat.eqb_refl].
     cbn zeta. unfold decide_not_changed. rewrite Hcons.
     assert (Hx : existsb (fun j0 => has_run (getL (r_lst σ) j0)) (s_edges c) = true).
@@ -785,7 +785,7 @@ Hypothesis Heff : forall k ck d, nth_error cfg k = Some ck -> In d (s_deps c) ->
 Definition frame (σ : rstate) : Prop := forall d, In d (s_deps c) -> getN (r_world σ) d = getN world d.
 Hypothesis HJ : forall σ k, ran_inv σ -> frame σ -> J σ -> frame (event v cfg recs σ k) -> J (event v cfg recs σ k).
 Hypothesis Hpass : forall σ ents, J σ -> frame σ -> getL (r_lst σ) i = LSupChanged ->
-  tho_entries recs (r_world σ) (targets_of v c σ) = Some ents -> existsb (fun e => changed (snd e)) ents = false.
+  tho_entries (msens v cfg) recs (r_world σ) (targets_of v c σ) = Some ents -> existsb (fun e => changed (snd e)) ents = false.
 
 Definition ugen_inv (σ : rstate) : Prop :=
   ran_inv σ /\ (upstream_ran c σ \/ (frame σ /\ J σ /\ ~ In i (r_exec σ))).
@@ -852,9 +852,9 @@ Section UnrelatedUnfixed.
 Variables (v : variant) (cfg : config) (recs world : list (dep * wval)) (i : step) (c : stepcfg).
 Hypothesis Hc : nth_error cfg i = Some c.
 Hypothesis Hna : rc_always (rcond c) = false.
-Hypothesis Hsame : forall d, In d (s_deps c) -> tho_same recs world d = true.
+Hypothesis Hsame : forall d, In d (s_deps c) -> tho_same (msens v cfg) recs world d = true.
 Hypothesis Heff : forall k ck d, nth_error cfg k = Some ck -> In d (s_deps c) -> In d (map fst (s_effs ck)) -> In k (s_edges c).
-Hypothesis Hclass : Known_P15 cfg recs world = false.
+Hypothesis Hclass : Known_P15 (msens v cfg) cfg recs world = false.
 
 Lemma nth_error_existsb {A} (p : A -> bool) l n x : nth_error l n = Some x -> p x = true -> existsb p l = true.
 Proof. intros H Hp. apply existsb_exists. exists x. split; [eapply nth_error_In; eauto | assumption]. Qed.
@@ -889,13 +889,13 @@ Qed.
 
 (* case B: step i is touched: then (class) no step has a really changed dependency and no command has effects *)
 Lemma case_touched order :
-  (forall k ck, nth_error cfg k = Some ck -> s_effs ck = [] /\ forall d, In d (s_deps ck) -> tho_same recs world d = true) ->
+  (forall k ck, nth_error cfg k = Some ck -> s_effs ck = [] /\ forall d, In d (s_deps ck) -> tho_same (msens v cfg) recs world d = true) ->
   In i (o_exec (run v cfg recs world order)) ->
   exists j, In j (s_edges c) /\ In j (o_exec (run v cfg recs world order)).
 Proof.
   intros Hall.
   apply (ugen_conclusion v cfg recs world i c
-           (fun σ => r_world σ = world /\ forall d, In d (map fst (r_diffs σ)) -> tho_same recs world d = true) Hc Hna Heff).
+           (fun σ => r_world σ = world /\ forall d, In d (map fst (r_diffs σ)) -> tho_same (msens v cfg) recs world d = true) Hc Hna Heff).
   - intros σ k _ _ [Hw Hd] _. split.
     + destruct (event_exec v cfg recs σ k) as [[_ ->] | [ck [Hck [_ [-> _]]]]]; [assumption|].
       destruct (Hall _ _ Hck) as [-> _]. exact Hw.
@@ -905,15 +905,15 @@ Proof.
       * apply updN_all_keys in Hin. destruct Hin as [Hin | Hin]; [now apply Hd|].
         destruct (sup_entries_spec _ _ _ _ Hs) as [Hk _]. apply (proj2 (Hall _ _ Hck)). rewrite <- Hk. exact Hin.
       * apply updN_all_keys in Hin. destruct Hin as [Hin | Hin]; [now apply Hd|].
-        destruct (tho_entries_spec _ _ _ _ Ht) as [Hk _].
+        destruct (tho_entries_spec _ _ _ _ _ Ht) as [Hk _].
         assert (Hin' : In d (map fst (targets_of v ck σ))) by (rewrite <- Hk; exact Hin). clear Hin. rename Hin' into Hin.
         apply Hd. apply in_map_iff in Hin. destruct Hin as [x [<- Hx]]. apply in_map. now apply targets_sub in Hx.
   - intros σ ents [Hw Hd] _ _ Ht. apply existsb_changed_false. intros d e' Hin.
-    destruct (tho_entries_spec _ _ _ _ Ht) as [_ [Hb _]]. destruct (Hb _ _ Hin) as [e [He Hr]].
+    destruct (tho_entries_spec _ _ _ _ _ Ht) as [_ [Hb _]]. destruct (Hb _ _ Hin) as [e [He Hr]].
     apply targets_sub in He. assert (Hk : In d (map fst (r_diffs σ))) by (change d with (fst (d, e)); now apply in_map).
     specialize (Hd _ Hk). unfold tho_result in Hr. destruct (changed e); [|now subst].
     destruct Hr as [wv [Hwv ->]]. rewrite Hw in Hwv. unfold tho_same in Hd. rewrite Hwv in Hd.
-    destruct (getN recs d) as [[rs rt]|]; [|discriminate]. destruct wv as [ws wt]. cbn [tho_compare snd]. rewrite Hd. reflexivity.
+    destruct (getN recs d) as [rv|]; [|discriminate]. cbn [tho_compare]. rewrite Hd. reflexivity.
   - split; [reflexivity | intros d []].
 Qed.
 
@@ -923,7 +923,7 @@ Lemma unrelated_outside_P15_lemma order :
 Proof.
   destruct (forallb (sup_same recs world) (s_deps c)) eqn:Hss; [now apply case_untouched|].
   apply case_touched. intros k ck Hck.
-  assert (Ht : touch_only recs world c = true).
+  assert (Ht : touch_only (msens v cfg) recs world c = true).
   { unfold touch_only. rewrite Hss. rewrite andb_true_r. apply forallb_forall. exact Hsame. }
   unfold Known_P15 in Hclass. rewrite (nth_error_existsb _ _ _ _ Hc Ht) in Hclass. cbn [andb] in Hclass.
   apply orb_false_elim in Hclass. destruct Hclass as [Hrc Hef]. split.
@@ -931,10 +931,10 @@ Proof.
     assert (X : existsb (fun c0 => match s_effs c0 with [] => false | _ => true end) cfg = true)
       by (apply (nth_error_existsb _ _ _ _ Hck); now rewrite E).
     congruence.
-  - intros d Hd. destruct (tho_same recs world d) eqn:E; [reflexivity|]. exfalso.
-    assert (X : existsb (really_changed recs world) cfg = true).
+  - intros d Hd. destruct (tho_same (msens v cfg) recs world d) eqn:E; [reflexivity|]. exfalso.
+    assert (X : existsb (really_changed (msens v cfg) recs world) cfg = true).
     { apply (nth_error_existsb _ _ _ _ Hck). unfold really_changed.
-      destruct (forallb (tho_same recs world) (s_deps ck)) eqn:F; [|reflexivity].
+      destruct (forallb (tho_same (msens v cfg) recs world) (s_deps ck)) eqn:F; [|reflexivity].
       rewrite forallb_forall in F. rewrite (F _ Hd) in E. discriminate. }
     congruence.
 Qed.
@@ -991,7 +991,7 @@ Hypothesis Hcoh : forall w, origin w -> coherent recs d w.
 
 Definition entry_ok (e : dentry) (w : wval) : Prop :=
   match e with
-  | DIdentical | DSkipped => match getN recs d with Some (_, rt) => N.eqb rt (snd w) = true | None => False end
+  | DIdentical | DSkipped => match getN recs d with Some rv => tho_eq (memN d (msens v cfg)) rv w = true | None => False end
   | DDifferent a | DRecordMissing a => a = w
   | DActualMissing => False
   end.
@@ -999,13 +999,14 @@ Definition entry_ok (e : dentry) (w : wval) : Prop :=
 Lemma sup_compare_ok w : coherent recs d w -> entry_ok (sup_compare (getN recs d) w) w.
 Proof.
   unfold coherent, entry_ok, sup_compare. destruct (getN recs d) as [[rs rt]|] eqn:E; [|reflexivity].
-  intros H. destruct (N.eqb rs (fst w)); [now apply H | reflexivity].
+  intros H. destruct (N.eqb rs (fst w)) eqn:F; [|reflexivity].
+  unfold tho_eq. cbn [fst snd]. rewrite (H eq_refl), F. now rewrite orb_true_r.
 Qed.
 
-Lemma tho_compare_ok w : entry_ok (tho_compare (getN recs d) w) w.
+Lemma tho_compare_ok w : entry_ok (tho_compare (memN d (msens v cfg)) (getN recs d) w) w.
 Proof.
-  unfold entry_ok, tho_compare. destruct (getN recs d) as [[rs rt]|] eqn:E; [|reflexivity].
-  destruct (N.eqb rt (snd w)) eqn:F; reflexivity.
+  unfold entry_ok, tho_compare. destruct (getN recs d) as [rv|] eqn:E; [|reflexivity].
+  destruct (tho_eq (memN d (msens v cfg)) rv w) eqn:F; reflexivity.
 Qed.
 
 Lemma unchanged_ok e w : changed e = false -> entry_ok e w -> entry_ok DSkipped w.
@@ -1051,7 +1052,7 @@ Proof.
     destruct (Hspec _ _ Hin) as [wv [Hwv ->]]. rewrite Hw in Hwv. injection Hwv as <-.
     apply sup_compare_ok. now apply Hcoh.
   - destruct (getN_updN_all_cases ents (r_diffs σ) d) as [[_ ->] | [e' [Hin ->]]]; [eauto|].
-    exists e'. split; [reflexivity|]. destruct (tho_entries_spec _ _ _ _ Ht) as [_ [Hb _]].
+    exists e'. split; [reflexivity|]. destruct (tho_entries_spec _ _ _ _ _ Ht) as [_ [Hb _]].
     destruct (Hb _ _ Hin) as [e0 [H0 Hr]]. apply targets_sub in H0.
     rewrite (In_getN_nodup _ _ _ Hnd H0) in He. injection He as ->.
     unfold tho_result in Hr. destruct (changed e) eqn:Hce.
@@ -1114,7 +1115,7 @@ Qed.
 
 Lemma successful_run_settles_lemma order :
   let o := run v cfg recs world order in
-  forallb is_done (o_states o) = true -> tho_same (o_records o) (o_world o) d = true.
+  forallb is_done (o_states o) = true -> tho_same (msens v cfg) (o_records o) (o_world o) d = true.
 Proof.
   cbn zeta. unfold run, finish. cbn [o_states o_records o_world]. rewrite forallb_map_eq. intros Hall.
   set (σ := run_events v cfg recs (init_state world) order) in *.
@@ -1128,12 +1129,14 @@ Proof.
   destruct Hst as [w [e [Hw [_ [He Hok]]]]].
   unfold end_records, all_done. rewrite Hall. rewrite andb_false_r.
   unfold tho_same. rewrite Hw. rewrite end_fold_getN by assumption. rewrite He.
-  unfold apply_entry. cbn [fst snd]. destruct w as [ws wt].
-  destruct e; cbn in Hok; try contradiction; cbn [kind_of uwa_action end_add_new end_remove_missing].
-  - destruct (getN recs d) as [[rs rt]|]; [exact Hok | contradiction].
-  - subst a. rewrite getN_updN, N.eqb_refl. apply N.eqb_refl.
-  - subst a. rewrite getN_updN, N.eqb_refl. apply N.eqb_refl.
-  - destruct (getN recs d) as [[rs rt]|]; [exact Hok | contradiction].
+  unfold apply_entry. cbn [fst snd].
+  assert (Hrefl : tho_eq (memN d (msens v cfg)) w w = true).
+  { unfold tho_eq. rewrite !N.eqb_refl. now rewrite orb_true_r. }
+  destruct e; cbn [entry_ok] in Hok; try contradiction; cbn [kind_of uwa_action end_add_new end_remove_missing].
+  - destruct (getN recs d) as [rv|]; [exact Hok | contradiction].
+  - subst a. rewrite getN_updN, N.eqb_refl. exact Hrefl.
+  - subst a. rewrite getN_updN, N.eqb_refl. exact Hrefl.
+  - destruct (getN recs d) as [rv|]; [exact Hok | contradiction].
 Qed.
 End Settles.
 
@@ -1151,7 +1154,7 @@ Lemma rerun_lemma v cfg recs world order1 order2 :
   effects_downstream cfg -> edits_visible cfg recs world ->
   let o1 := run v cfg recs world order1 in
   forallb is_done (o_states o1) = true ->
-  v_own_only v = true \/ Known_P15 cfg (o_records o1) (o_world o1) = false ->
+  v_own_only v = true \/ Known_P15 (msens v cfg) cfg (o_records o1) (o_world o1) = false ->
   let o2 := run v cfg (o_records o1) (o_world o1) order2 in
   forall i c, nth_error cfg i = Some c -> In i (o_exec o2) ->
               rc_always (rcond c) = true \/ exists j, In j (s_edges c) /\ In j (o_exec o2).
@@ -1160,7 +1163,7 @@ Proof.
   destruct (rc_always (rcond c)) eqn:Ha; [now left|]. right.
   destruct (rc_never (rcond c)) eqn:Hn.
   { exfalso. apply never_iff_when in Hn. exact (never_is_never_lemma v cfg _ _ order2 i c Hc Hn Hi). }
-  assert (Hsame : forall d, In d (s_deps c) -> tho_same (o_records o1) (o_world o1) d = true).
+  assert (Hsame : forall d, In d (s_deps c) -> tho_same (msens v cfg) (o_records o1) (o_world o1) d = true).
   { intros d Hd. apply (successful_run_settles_lemma v cfg recs world i c d Hc Hd Hn).
     - intros k ck Hck X. exact (Heff i c k ck d Hc Hck Hd X).
     - intros w Ho. exact (Hvis i c d w Hc Hd Ho).
@@ -1182,7 +1185,7 @@ Lemma rerun_only_forced_lemma v cfg recs world order1 order2 :
   effects_downstream cfg -> edits_visible cfg recs world ->
   let o1 := run v cfg recs world order1 in
   forallb is_done (o_states o1) = true ->
-  v_own_only v = true \/ Known_P15 cfg (o_records o1) (o_world o1) = false ->
+  v_own_only v = true \/ Known_P15 (msens v cfg) cfg (o_records o1) (o_world o1) = false ->
   Known_downstream_edge cfg = false ->
   let o2 := run v cfg (o_records o1) (o_world o1) order2 in
   forall i c, nth_error cfg i = Some c -> In i (o_exec o2) -> rc_always (rcond c) = true.
@@ -1201,3 +1204,83 @@ Proof.
     apply existsb_exists. exists j. split; [assumption|]. now rewrite Hcj, Hnj. }
   congruence.
 Qed.
+
+
+(* ---- glob-member-touch (P73): the code-relative notion of "unchanged" against the content-level one ---------- *)
+Lemma tho_eq_content m r w : tho_eq m r w = true -> N.eqb (snd r) (snd w) = true.
+Proof. unfold tho_eq. intros H. apply andb_prop in H. tauto. Qed.
+
+Lemma tho_eq_false_meta r w : tho_eq false r w = N.eqb (snd r) (snd w).
+Proof. unfold tho_eq. cbn [negb orb]. now rewrite andb_true_r. Qed.
+
+Lemma tho_same_content gl recs world d : tho_same gl recs world d = true -> content_same recs world d = true.
+Proof.
+  unfold tho_same, content_same. destruct (getN recs d) as [[rs rt]|]; [|discriminate].
+  destruct (getN world d) as [[ws wt]|]; [|discriminate]. intros H. exact (tho_eq_content _ _ _ H).
+Qed.
+
+Lemma tho_changed_mono m r w : changed (tho_compare false r w) = true -> changed (tho_compare m r w) = true.
+Proof.
+  unfold tho_compare. destruct r as [rv|]; [|auto]. rewrite tho_eq_false_meta.
+  destruct (tho_eq m rv w) eqn:E; [|reflexivity]. now rewrite (tho_eq_content _ _ _ E).
+Qed.
+
+Lemma msens_fixed v cfg : v_glob_content v = true -> msens v cfg = [].
+Proof. unfold msens. now intros ->. Qed.
+
+Lemma glob_class_empty_when_fixed_lemma v cfg recs world :
+  v_glob_content v = true -> Known_glob_touch v cfg recs world = false.
+Proof. intros H. unfold Known_glob_touch. now rewrite (msens_fixed v cfg H). Qed.
+
+(* outside the class (in particular: with the repair) what the property calls unchanged is what the code's thorough
+   comparison finds identical *)
+Lemma content_to_tho v cfg recs world d :
+  Known_glob_touch v cfg recs world = false ->
+  content_same recs world d = true -> tho_same (msens v cfg) recs world d = true.
+Proof.
+  intros Hk Hcs. unfold tho_same. destruct (memN d (msens v cfg)) eqn:Hm.
+  - apply memN_In in Hm.
+    assert (Hg : glob_touched recs world d = false).
+    { destruct (glob_touched recs world d) eqn:G; [|reflexivity].
+      assert (X : Known_glob_touch v cfg recs world = true) by (apply existsb_exists; exists d; split; assumption).
+      congruence. }
+    unfold glob_touched in Hg. rewrite Hcs in Hg. cbn [andb] in Hg. apply negb_false_iff in Hg.
+    unfold content_same in Hcs. unfold sup_same in Hg.
+    destruct (getN recs d) as [[rs rt]|]; [|discriminate]. destruct (getN world d) as [[ws wt]|]; [|discriminate].
+    unfold tho_eq. cbn [fst snd negb orb]. now rewrite Hcs, Hg.
+  - unfold content_same in Hcs.
+    destruct (getN recs d) as [[rs rt]|]; [|discriminate]. destruct (getN world d) as [[ws wt]|]; [|discriminate].
+    rewrite tho_eq_false_meta. exact Hcs.
+Qed.
+
+(* a touch is not a change, stated on contents: variants whose thorough pass looks at the step's own dependencies,
+   outside the class Known_glob_touch (empty for the repaired comparison) *)
+Lemma content_unchanged_not_executed_lemma v cfg recs world i c :
+  v_own_only v = true -> Known_glob_touch v cfg recs world = false ->
+  nth_error cfg i = Some c -> rc_always (rcond c) = false ->
+  (forall d, In d (s_deps c) -> content_same recs world d = true) ->
+  (forall k ck d, nth_error cfg k = Some ck -> In d (s_deps c) -> In d (map fst (s_effs ck)) -> In k (s_edges c)) ->
+  forall order, In i (o_exec (run v cfg recs world order)) ->
+  exists j, In j (s_edges c) /\ In j (o_exec (run v cfg recs world order)).
+Proof.
+  intros Hown Hk Hc Hna Hsame Heff order.
+  apply (unrelated_not_executed_lemma v cfg recs world i c Hown Hc Hna); [|exact Heff].
+  intros d Hd. apply content_to_tho; [exact Hk | now apply Hsame].
+Qed.
+
+(* the thorough comparison of a --glob dependency by the variant v_code is the executed table of
+   GlobDep::diff_thorough (Gen/DiffTables.v), the superficial fingerprint standing for both digests *)
+Lemma glob_table_is_tho_compare r w :
+  changed (tho_compare (negb code_glob_thorough_content_only) (Some r) w) =
+  diff_changed (glob_tho_kind (N.eqb (fst r) (fst w)) (N.eqb (fst r) (fst w))
+                              (if N.eqb (snd r) (snd w) then GCsame else GCdiff)).
+Proof.
+  rewrite glob_tho_is_modelled. unfold tho_compare, tho_eq.
+  destruct (N.eqb (snd r) (snd w)), (N.eqb (fst r) (fst w)), code_glob_thorough_content_only; reflexivity.
+Qed.
+Lemma glob_table_is_sup_compare r w :
+  changed (sup_compare (Some r) w) = diff_changed (glob_sup_kind (N.eqb (fst r) (fst w)) (N.eqb (fst r) (fst w))).
+Proof. rewrite glob_sup_is_modelled. unfold sup_compare. destruct r as [rs rt]. cbn [fst]. destruct (N.eqb rs (fst w)); reflexivity. Qed.
+Lemma msens_code cfg d :
+  memN d (msens v_code cfg) = negb code_glob_thorough_content_only && memN d (flat_map s_globs cfg).
+Proof. unfold msens, v_code. cbn [v_glob_content]. destruct code_glob_thorough_content_only; reflexivity. Qed.
